@@ -291,6 +291,77 @@ func vfCheckUndefined(c *vfCtx, vt *vfTable) bool {
 	return true
 }
 
+// vfCheckLegacyBlocks drives the block-by-block receiver (protocol 1, and peers older than the pipeline): every DATA
+// block is escaped on its own, so a block that ends inside an escape pair is malformed and must be rejected, never
+// completed by guessing; well-formed blocks must come back unchanged.
+func vfCheckLegacyBlocks(c *vfCtx, vt *vfTable, d []byte, r *vfRand) bool {
+	if len(d) > 6000 {
+		d = d[:6000]
+	}
+	newT := func() *trzszTransfer {
+		t := newTransfer(io.Discard, nil, false, nil)
+		t.transferConfig.Binary = true
+		t.transferConfig.EscapeTable = vt.table
+		t.transferConfig.Timeout = 60
+		return t
+	}
+	t := newT()
+	var blocks [][]byte
+	for i := 0; i < len(d); {
+		n := 1 + r.Intn(r.PickInt(2, 40, 2000))
+		if i+n > len(d) {
+			n = len(d) - i
+		}
+		blocks = append(blocks, d[i:i+n])
+		i += n
+	}
+	for bi, blk := range blocks {
+		esc := escapeData(blk, vt.table)
+		wire := append([]byte(fmt.Sprintf("#DATA:%d\n", len(esc))), esc...)
+		// delivered in arbitrary pieces
+		for i := 0; i < len(wire); {
+			n := 1 + r.Intn(r.PickInt(1, 7, 5000))
+			if i+n > len(wire) {
+				n = len(wire) - i
+			}
+			t.addReceivedData(append([]byte(nil), wire[i:i+n]...), false)
+			i += n
+		}
+		got, err := t.recvData()
+		if err != nil || !bytes.Equal(got, blk) {
+			c.Viol("c04-legacy-block-roundtrip", "table %s: block %d (%d bytes, escaped %d) came back from the block receiver as %d bytes, err %v", vt.name, bi, len(blk), len(esc), len(got), err)
+			return false
+		}
+		c.Obs("legacy_blocks_roundtrip", 1)
+	}
+	// malformed: a block that ends with a leader whose code is missing (cut inside a pair, or a stray leader appended)
+	var probes [][]byte
+	probes = append(probes, []byte{escapeLeaderByte}, append(escapeData([]byte("AB"), vt.table), escapeLeaderByte))
+	for _, k := range vt.keys {
+		esc := escapeData([]byte{'x', k, 'y'}, vt.table)
+		if i := bytes.IndexByte(esc, escapeLeaderByte); i >= 0 {
+			probes = append(probes, append([]byte(nil), esc[:i+1]...))
+		}
+		if len(probes) > 6 {
+			break
+		}
+	}
+	for _, p := range probes {
+		t := newT()
+		// the rest of the pair follows as the next block, the way a peer that splits pairs across blocks would send it
+		t.addReceivedData([]byte(fmt.Sprintf("#DATA:%d\n", len(p))), false)
+		t.addReceivedData(append([]byte(nil), p...), false)
+		t.addReceivedData([]byte("#DATA:2\n1C"), false)
+		got, err := t.recvData()
+		if err == nil {
+			c.Viol("c04-dangling-leader-accepted", "table %s: a DATA block ending in a leader without its code (% x) was accepted by the block receiver as %q instead of being rejected", vt.name, p, got)
+			return false
+		}
+		c.Obs("legacy_dangling_leader_rejected", 1)
+	}
+	return true
+}
+
 func vfBiasedData(r *vfRand, vt *vfTable, n int) []byte {
 	d := r.Bytes(n)
 	mode := r.Intn(4)
@@ -392,6 +463,9 @@ func TestVF_C04(t *testing.T) {
 				if !vfCheckStreaming(c, vt, d, compress, c.R) {
 					return
 				}
+			}
+			if !vfCheckLegacyBlocks(c, vt, d, c.R) {
+				return
 			}
 			if i%10 >= 2 && i%4 == 0 {
 				if !vfCheckUndefined(c, vt) {
